@@ -110,10 +110,10 @@ class IoBoxDevice(Device, Generic[A, V]):
                 and values that have been updated, either via inputs or
                 an adapter
         """
-        self._change_buffer += inputs.get("updates", [])
+        pending = list(inputs.get("updates", [])) + self._change_buffer
+        self._change_buffer = []
         updates = []
-        while self._change_buffer:
-            addr, value = self._change_buffer.pop()
+        for addr, value in pending:
             self._memory[addr] = value
             updates.append((addr, value))
         return DeviceUpdate(IoBoxDevice.Outputs(updates=updates), None)
